@@ -39,6 +39,8 @@ RULE = (
     'prescribed end and MTOW clauses judged there); two different model objects (all ordered pairs of the six '
     'parameter sets) one after the other on identical argument values. In every multi-call case the arrays '
     'returned by the first call must be unchanged after the second, and no call may modify its argument arrays. '
+    'Representations: the same argument values as bool / 0-1 integer / 0.0-1.0 float / list / scalar cruise '
+    'flags, scalars for constant profiles, strided views and read-only arrays. '
     'A profile case is '
     'non-trivial when fuel was burnt; distinct = distinct case'
 )
@@ -429,6 +431,32 @@ def sublattices(tier, seed):
                     var = dict(b, vary=a)
                     for inplace in (False, True):
                         cases += [dict(k='hist', a=b, b=var, inplace=inplace), dict(k='hist', a=var, b=b, inplace=inplace)]
+    # representations of the same argument values (flags as bool / 0-1 int / 0.0-1.0 float / list / one scalar;
+    # constant profiles as scalars; strided views; read-only arrays): the oracle is unchanged
+    rcases = []
+    for eng in ENGINES:
+        for ps in (0, 1):
+            base = dict(eng=eng, ps=ps)
+            calls_ = [dict(base, k='pt', alt=4, dT=3, cr=c, m=1) for c in (0, 1, 2)]
+            for pr in ('mixed', 'level'):
+                for c in CRUISE:
+                    for sp in SPEEDS:
+                        prof = dict(base, n=5, prof=pr, spd=sp, cr=c, seg=50000.0, gs=0.0, m=1, it=10)
+                        calls_ += [dict(prof, k='ci'), dict(prof, k='cf')]
+                        calls_ += [dict(prof, k=k, est='high', mtow='max', lf=1.0, res=1) for k in ('fr', 'fv')]
+            for b in calls_:
+                inp = point_inputs(b) if b['k'] == 'pt' else profile_inputs(b)
+                rcases += [dict(b, rep=r) for r in REPS if rep_applicable(r, inp)]
+    subs.append(
+        {
+            'name': 'representations of the same argument values',
+            'axes': {
+                'eng': ENGINES, 'ps': [0, 1], 'entry': ['pt', 'ci', 'cf', 'fr', 'fv'], 'profile': ['mixed', 'level'],
+                'speed': SPEEDS, 'cruise flags': CRUISE, 'representation (where applicable)': REPS,
+            },  # fmt: skip
+            'cases': rcases,
+        }
+    )
     # two DIFFERENT model objects, one after the other, on identical argument values: every ordered pair of
     # the six parameter sets (incl. two objects of the same set); the second call is the set's own mission and
     # is judged, the first is another aircraft flying the same numbers (not judged, only kept for aliasing)
@@ -531,8 +559,24 @@ def _new_model(case):
     return model_cls(ap)
 
 
-def _arrays(inp, buf=None):
-    """Lists -> numpy arrays. With a buffer dict, an array object of the same name, shape and dtype
+REPS = ['int-flags', 'float-flags', 'list-flags', 'scalar-flags', 'scalars', 'strided-views', 'read-only']
+_SCALAR_OK = ['temperature', 'altitude', 'v_tas', 'rocd', 'acceleration', 'mass']
+
+
+def rep_applicable(rep, inp):
+    """A scalar stands for an array only where every element is the same."""
+    if rep == 'scalar-flags':
+        return len(set(inp['in_cruise'])) == 1
+    if rep == 'scalars':
+        return any(len(set(inp[k])) == 1 for k in _SCALAR_OK if k in inp)
+    return True
+
+
+def _arrays(inp, buf=None, rep=None):
+    """Lists -> numpy arrays. `rep` selects another representation of the same values (case key
+    'rep'): cruise flags as 0/1 integers, 0.0/1.0 floats, a Python list of bools or one scalar flag;
+    constant numeric profiles as Python scalars; all arrays as strided views of larger buffers; all
+    arrays read-only. The values - and therefore the oracle - are unchanged. With a buffer dict, an array object of the same name, shape and dtype
     left by the previous call is refilled IN PLACE and passed again (a caller that keeps its profile
     in pre-allocated arrays); otherwise a fresh array is made (and remembered in the buffer)."""
     np = _STATE['np']
@@ -541,7 +585,14 @@ def _arrays(inp, buf=None):
         if not isinstance(v, list):
             out[k] = v
             continue
-        new = np.array(v, dtype=bool if k == 'in_cruise' else float)
+        dtype = float
+        if k == 'in_cruise':
+            dtype = {'int-flags': np.int64, 'float-flags': float}.get(rep, bool)
+        new = np.array(v, dtype=dtype)
+        if rep == 'strided-views':
+            big = np.zeros(2 * len(v) + 1, dtype=dtype)
+            big[1::2] = new
+            new = big[1::2]
         old = None if buf is None else buf.get(k)
         if old is not None and old.shape == new.shape and old.dtype == new.dtype:
             old[...] = new
@@ -549,6 +600,18 @@ def _arrays(inp, buf=None):
         if buf is not None:
             buf[k] = new
         out[k] = new
+    if rep == 'list-flags':
+        out['in_cruise'] = [bool(x) for x in inp['in_cruise']]
+    elif rep == 'scalar-flags':
+        out['in_cruise'] = bool(inp['in_cruise'][0])
+    elif rep == 'scalars':
+        for k in _SCALAR_OK:
+            if k in inp and len(set(inp[k])) == 1:
+                out[k] = float(inp[k][0])
+    elif rep == 'read-only':
+        for v in out.values():
+            if isinstance(v, np.ndarray):
+                v.flags.writeable = False
     return out
 
 
@@ -578,7 +641,7 @@ def _keep_result(label, obj):
 def _call_entry(case, inp, model, buf=None):
     """-> (returned mass list | None, recorded sgr calls [(mass list, sgr list)], exception | None)"""
     np = _STATE['np']
-    a = _arrays(inp, buf)
+    a = _arrays(inp, buf, case.get('rep'))
     calls = []
     orig = model.calculate_specific_ground_range
 
@@ -660,7 +723,7 @@ def _run_point(case, model, buf=None):
     np = _STATE['np']
     s = _pset(case)
     inp = point_inputs(case)
-    a = _arrays(inp, buf)
+    a = _arrays(inp, buf, case.get('rep'))
     vio = []
     snap = _snapshot(a)
     try:
